@@ -2,6 +2,7 @@ package sym
 
 import (
 	"fmt"
+	"os"
 	"go/constant"
 	"go/token"
 	"go/types"
@@ -54,6 +55,7 @@ type Interp struct {
 	mset           map[string]*ssa.Function
 	pathObjs       int
 	curFrames      []*frame
+	initPkg        *ssa.Package
 	specLogs       []*writeLog
 	specGuards     []*Term
 	specStepLimit  int
@@ -65,6 +67,7 @@ type Interp struct {
 
 func NewInterp(prog *ssa.Program, e *Explorer) *Interp {
 	in := newInterp(prog, e)
+	e.ArmGuards = func() []*Term { return append([]*Term{}, in.specGuards...) }
 	e.Guard = func(c *Term) *Term {
 		for i := len(in.specGuards) - 1; i >= 0; i-- {
 			c = Implies(in.specGuards[i], c)
@@ -151,12 +154,24 @@ func (in *Interp) runPkgInit(pkg *ssa.Package) {
 		return
 	}
 	in.lenient++
-	defer func() { in.lenient-- }()
+	savedInit := in.initPkg
+	in.initPkg = pkg
+	defer func() { in.lenient--; in.initPkg = savedInit }()
 	defer func() {
 		if r := recover(); r != nil {
-			switch r.(type) {
+			switch x := r.(type) {
 			case *GoPanic:
 				// swallow: leave remaining globals zero
+				if os.Getenv("GOSYM_DEBUG_INIT") != "" {
+					fmt.Fprintf(os.Stderr, "init of %s: panic %s at %s\n", pkg.Pkg.Path(), x.Msg, x.Pos)
+				}
+			case *pathEnd:
+				if os.Getenv("GOSYM_DEBUG_INIT") != "" {
+					fmt.Fprintf(os.Stderr, "init of %s: %s %s\n", pkg.Pkg.Path(), x.kind, x.reason)
+				}
+				if x.kind != "unsupported" {
+					panic(r)
+				}
 			default:
 				panic(r)
 			}
@@ -220,6 +235,19 @@ func (fr *frame) get(v ssa.Value) Value {
 
 func load(p *Value) Value { return copyVal(*p) }
 
+// resolve forks on the nil-ness of a store value with symbolic presence.
+func (in *Interp) resolve(v Value) Value {
+	if m, ok := v.(MaybeNil); ok {
+		if in.E.Branch(m.Nil, "store-presence") {
+			return Slice{}
+		}
+		return m.S
+	}
+	return v
+}
+
+func (fr *frame) getR(v ssa.Value) Value { return fr.in.resolve(fr.get(v)) }
+
 func store(p *Value, v Value) { *p = copyVal(v) }
 
 // ---------------------------------------------------------------- calls
@@ -236,6 +264,9 @@ func (in *Interp) callValue(fnv Value, args []Value, pos token.Pos) Value {
 	case *ssa.Builtin:
 		return in.callBuiltin(f, args, pos)
 	case *BoundIntrinsic:
+		for i := range args {
+			args[i] = in.resolve(args[i])
+		}
 		return f.Fn(in, append([]Value{f.Recv}, args...), pos)
 	}
 	in.unsupp("call of %T", fnv)
@@ -258,8 +289,16 @@ func isPbGo(in *Interp, fn *ssa.Function) bool {
 }
 
 func (in *Interp) callFunction(fn *ssa.Function, args []Value, env []Value, pos token.Pos) Value {
+	if in.lenient > 0 && fn.Pkg != nil && (fn.Name() == "init" || strings.HasPrefix(fn.Name(), "init#")) {
+		if fn.Pkg != in.initPkg || strings.HasPrefix(fn.Name(), "init#") {
+			return nil // imported packages' initialisers and user init() functions are not run
+		}
+	}
 	name := fn.String()
 	if intr, ok := intrinsics[name]; ok {
+		for i := range args {
+			args[i] = in.resolve(args[i])
+		}
 		return intr(in, fn, args, pos)
 	}
 	if fn.Pkg != nil && strings.HasSuffix(fn.Pkg.Pkg.Path(), "/vh") {
@@ -438,17 +477,23 @@ func (fr *frame) visit(instr ssa.Instruction) int {
 		fr.env[instr] = in.binop(instr.Op, instr.X.Type(), fr.get(instr.X), fr.get(instr.Y), instr.Pos(), instr.Type())
 	case *ssa.Call:
 		fn, args := fr.prepareCall(&instr.Call)
+		if in.lenient > 0 && fr.fn.Name() == "init" {
+			// package initialiser: a failing initialiser expression leaves its
+			// variable zero instead of aborting the remaining ones
+			fr.env[instr] = in.lenientCall(fn, args, instr)
+			break
+		}
 		fr.env[instr] = in.callValue(fn, args, instr.Pos())
 	case *ssa.ChangeInterface:
 		fr.env[instr] = fr.get(instr.X)
 	case *ssa.ChangeType:
 		fr.env[instr] = fr.get(instr.X)
 	case *ssa.Convert:
-		fr.env[instr] = in.conv(instr.Type(), instr.X.Type(), fr.get(instr.X), instr.Pos())
+		fr.env[instr] = in.conv(instr.Type(), instr.X.Type(), fr.getR(instr.X), instr.Pos())
 	case *ssa.MultiConvert:
 		fr.env[instr] = in.conv(instr.Type(), instr.X.Type(), fr.get(instr.X), instr.Pos())
 	case *ssa.SliceToArrayPointer:
-		x := fr.get(instr.X).(Slice)
+		x := fr.getR(instr.X).(Slice)
 		n := int(instr.Type().(*types.Pointer).Elem().Underlying().(*types.Array).Len())
 		if len(x.V) < n {
 			in.goPanic(instr.Pos(), "slice to array pointer: length too short", nil)
@@ -462,7 +507,7 @@ func (fr *frame) visit(instr ssa.Instruction) int {
 	case *ssa.Extract:
 		fr.env[instr] = fr.get(instr.Tuple).(Tuple)[instr.Index]
 	case *ssa.Slice:
-		fr.env[instr] = in.sliceOp(instr, fr.get(instr.X), fr.get(instr.Low), fr.get(instr.High), fr.get(instr.Max))
+		fr.env[instr] = in.sliceOp(instr, fr.getR(instr.X), fr.get(instr.Low), fr.get(instr.High), fr.get(instr.Max))
 	case *ssa.Return:
 		switch len(instr.Results) {
 		case 0:
@@ -539,7 +584,7 @@ func (fr *frame) visit(instr ssa.Instruction) int {
 		}
 		fr.env[instr] = copyVal(s[instr.Field])
 	case *ssa.IndexAddr:
-		x := fr.get(instr.X)
+		x := fr.getR(instr.X)
 		idx := fr.get(instr.Index).(*Term)
 		var elems []Value
 		switch x := x.(type) {
@@ -733,6 +778,14 @@ func (in *Interp) methodOf(t types.Type, pkg *types.Package, name string) *ssa.F
 // ---------------------------------------------------------------- builtins
 
 func (in *Interp) callBuiltin(b *ssa.Builtin, args []Value, pos token.Pos) Value {
+	if b.Name() == "len" {
+		if m, ok := args[0].(MaybeNil); ok {
+			return Ite(m.Nil, Int64(0), Int64(int64(len(m.S.V))))
+		}
+	}
+	for i := range args {
+		args[i] = in.resolve(args[i])
+	}
 	switch b.Name() {
 	case "append":
 		if len(args) == 1 {
@@ -1133,6 +1186,30 @@ func (in *Interp) typeAssert(instr *ssa.TypeAssert, x Value) Value {
 		in.goPanic(instr.Pos(), fmt.Sprintf("interface conversion: %v is not %v", iv.T, instr.AssertedType), nil)
 	}
 	return v
+}
+
+func (in *Interp) lenientCall(fn Value, args []Value, instr *ssa.Call) (res Value) {
+	defer func() {
+		if r := recover(); r != nil {
+			switch x := r.(type) {
+			case *GoPanic:
+				if os.Getenv("GOSYM_DEBUG_INIT") != "" {
+					fmt.Fprintf(os.Stderr, "init: call at %s panicked: %s\n", in.posOf(instr.Pos()), x.Msg)
+				}
+			case *pathEnd:
+				if x.kind != "unsupported" {
+					panic(r)
+				}
+				if os.Getenv("GOSYM_DEBUG_INIT") != "" {
+					fmt.Fprintf(os.Stderr, "init: call at %s unsupported: %s\n", in.posOf(instr.Pos()), x.reason)
+				}
+			default:
+				panic(r)
+			}
+			res = zero(instr.Type())
+		}
+	}()
+	return in.callValue(fn, args, instr.Pos())
 }
 
 // CallEntry runs a harness entry point (no arguments).
